@@ -182,6 +182,18 @@ theorem every_retry_call_site_ordered :
     RqModel.Gen.QueueSvc.beginWithRetryCalls.length = 2 ∧
     ∀ c ∈ RqModel.Gen.QueueSvc.beginWithRetryCalls, 0 < c.2.2 ∧ c.2.2 * 10 ≤ c.2.1 := by decide
 
+/-- **Every operation that relies on the gate holds it itself** (regenerated from store/):
+Backup, Close, the startup integrity check and the snapshot each take `s.snapshotCAS`
+unconditionally — none skips the acquisition depending on who currently owns the gate, and
+nothing reads the gate's owner to decide anything. This is what makes "the gate is held"
+mean "an operation is in flight" (one holder, C34.cas_at_most_one_holder), which the Close
+theorems rely on when they say Close waits for *that operation*. -/
+theorem gate_users_hold_it_themselves :
+    RqModel.Gen.SnapshotLock.gateAcquisitions =
+      ["Backup:BeginWithRetry:\"backup\":conditional=false", "Close:BeginWithRetry:\"close\":conditional=false",
+       "Open:Begin:\"check-clean-snapshot\":conditional=false", "fsmSnapshot:Begin:\"snapshot\":conditional=false"] ∧
+    RqModel.Gen.SnapshotLock.gateOwnerReaders = [] := by decide
+
 /-- the retry loop as it stands in the current sources (regenerated): deadline computed once
 before the loop; each iteration tries `Begin`, returns on success, gives up when the deadline
 has passed (strict `After`), otherwise sleeps `retryInterval` — the steps of `loop` in the model -/
